@@ -159,6 +159,7 @@ pub const C_IMPLICIT: &str = "metal-implicit-conversion-not-allowed";
 pub const C_VEC_OPERANDS: &str = "metal-vector-operand-types-differ";
 pub const C_CAST: &str = "metal-cast-not-allowed";
 pub const C_BUILTIN_ARGS: &str = "metal-builtin-argument-types";
+pub const C_FLOAT_REM: &str = "metal-remainder-operator-on-floats";
 
 fn wrap64(n: i128) -> i128 {
     (n as i64) as i128
@@ -389,6 +390,8 @@ pub struct MslV<'a> {
     pub hlsl_literals: bool,
     /// `metal::fmod` stands for the built-in `fmod` (else for the operator `%` on floats)
     pub fmod_is_builtin: bool,
+    /// evaluating `metal::fmod` as the float remainder (the one place where `%` on floats is meant)
+    pub in_fmod: std::cell::Cell<bool>,
 }
 
 include!("vmev_types.rs");
